@@ -460,6 +460,10 @@ func (e *engine) mergeDelta() error {
 			return fmt.Errorf("merging with |target vars| != 1 not implemented: %v", fundep.Target)
 		}
 		targetColumn := fundep.Target[0]
+		// The merged value is written into fact below. Its arguments are
+		// shared with the atom inside the delta store, which is keyed by
+		// their hash, so that atom must not change: work on a copy.
+		fact = ast.Atom{fact.Predicate, append([]ast.BaseTerm(nil), fact.Args...)}
 
 		// Query existing facts whose columns agree on fundep.Source values.
 		queryArgs := make([]ast.BaseTerm, pred.Arity, pred.Arity)
